@@ -1058,6 +1058,10 @@ func (x *Exec) callSiteObligations(fr *Frame, st *State, fn *ssa.Function, name 
 			vars["root_"+p.Name()] = root.params[i] // not shadowed by a callee parameter of the same name
 		}
 		x.bindFreeVars(root, st, vars)
+		oldVars := map[string]*Value{}
+		for k, v := range vars {
+			oldVars[k] = v
+		}
 		// callee parameters (shadowing)
 		if ec, ok := x.db.Externs[name]; ok && len(ec.Params) > 0 {
 			for i, p := range ec.Params {
@@ -1072,8 +1076,18 @@ func (x *Exec) callSiteObligations(fr *Frame, st *State, fn *ssa.Function, name 
 				}
 			}
 		}
-		env := &SpecEnv{x: x, vars: vars, cur: st, old: root.entry, pkg: x.pkgOfFn(root.fn)}
+		env := &SpecEnv{x: x, vars: vars, cur: st, old: root.entry, pkg: x.pkgOfFn(root.fn), oldVars: oldVars}
+		// a call made by the function under contract itself: its local variables are in scope, with the values
+		// they have at the call (the definition that reaches the call instruction)
+		x.resolveLimit = 0
+		if fr == root {
+			if blk, idx := callInstrAt(root.fn, pos); blk != nil {
+				env.fr, env.at = root, blk
+				x.resolveLimit = idx
+			}
+		}
 		t := x.guardedEval(func() *Term { return env.evalBool(cc.C.E) }, root.contract, cc.C)
+		x.resolveLimit = 0
 		lbl := cc.C.Label
 		if lbl == "" {
 			lbl = shortName(cc.Callee)
@@ -1201,6 +1215,10 @@ func (x *Exec) ifaceCallSiteObligations(fr *Frame, st *State, recv *Value, m *ty
 			vars["root_"+p.Name()] = root.params[i]
 		}
 		x.bindFreeVars(root, st, vars)
+		oldVars := map[string]*Value{}
+		for k, v := range vars {
+			oldVars[k] = v
+		}
 		sig := m.Type().(*types.Signature)
 		for i := 0; i < sig.Params().Len() && i < len(args); i++ {
 			if n := sig.Params().At(i).Name(); n != "" {
@@ -1209,8 +1227,16 @@ func (x *Exec) ifaceCallSiteObligations(fr *Frame, st *State, recv *Value, m *ty
 			vars[fmt.Sprintf("arg%d", i)] = args[i]
 		}
 		vars["recv"] = recv
-		env := &SpecEnv{x: x, vars: vars, cur: st, old: root.entry, pkg: x.pkgOfFn(root.fn)}
+		env := &SpecEnv{x: x, vars: vars, cur: st, old: root.entry, pkg: x.pkgOfFn(root.fn), oldVars: oldVars}
+		x.resolveLimit = 0
+		if fr == root {
+			if blk, idx := callInstrAt(root.fn, pos); blk != nil {
+				env.fr, env.at = root, blk
+				x.resolveLimit = idx
+			}
+		}
 		t := x.guardedEval(func() *Term { return env.evalBool(cc.C.E) }, root.contract, cc.C)
+		x.resolveLimit = 0
 		lbl := cc.C.Label
 		if lbl == "" {
 			lbl = m.Name()
@@ -1366,4 +1392,19 @@ func (x *Exec) onlyAnonymousHelpersAboveRoot() bool {
 		}
 	}
 	return true
+}
+
+// callInstrAt finds the call instruction of fn at source position pos (block and index within the block).
+func callInstrAt(fn *ssa.Function, pos token.Pos) (*ssa.BasicBlock, int) {
+	if !pos.IsValid() {
+		return nil, 0
+	}
+	for _, b := range fn.Blocks {
+		for i, in := range b.Instrs {
+			if ci, ok := in.(ssa.CallInstruction); ok && ci.Pos() == pos {
+				return b, i
+			}
+		}
+	}
+	return nil, 0
 }
